@@ -30,14 +30,15 @@
    was filled while an earlier group was outstanding which the node later REFUSED is outside
    the compared domain ("behind-refused-injection": no fill-time assignment can be right). *)
 EXTENDS Integers, Sequences, FiniteSets, TLC
-CONSTANTS MaxGroups,    \* bound on client-side group objects (built + filled)
-          Batches,      \* set of group sizes (contents per group)
-          Acts,         \* enabled calls, a subset of {"fill", "autofill", "autofail", "send", "inject", "bake"} (families share this module)
-          MaxBuilt,     \* bound on built (unfilled) groups
-          MaxCalls,     \* history length, builds not counted
-          MaxCtx,       \* number of ExecutionContexts (client.operation() calls / roots)
-          Chain0,       \* initial account counter
-          MempoolKey,   \* "applied": legacy node; "validated": current Octez (>= v19) mempool RPC
+CONSTANTS Families,     \* set of bound records; Init picks one ("separate configurations, one source of truth"):
+                        \*   groups  bound on client-side group objects (built + filled)
+                        \*   batches set of group sizes (contents per group)
+                        \*   acts    enabled calls, a subset of {"fill", "autofill", "autofail", "send", "inject", "bake"}
+                        \*   built   bound on built (unfilled) groups
+                        \*   calls   history length, builds not counted
+                        \*   ctx     number of ExecutionContexts (client.operation() calls / root groups)
+                        \*   chain0  initial account counter
+                        \*   key     "applied": legacy node; "validated": current Octez (>= v19) mempool RPC
           Repaired      \* deviations of the as-coded machine that have been repaired in the code under test:
                         \* a subset of {"validated-mempool", "failed-simulation"} ({} = the tree as found)
 None == -1
@@ -51,8 +52,17 @@ VARIABLES chainCtr,    \* account counter on the node (head context)
           groups,      \* client side group objects
           accSet, refSet, \* injected groups: accepted / refused by the node
           log,         \* injections: what was sent (got), what the property demands (want), ...
-          calls, lastInj, hist
-vars == <<chainCtr, mempool, nctx, cache, ep, groups, accSet, refSet, log, calls, lastInj, hist>>
+          calls, lastInj, hist,
+          fam          \* the bounds of this behaviour (never changes)
+vars == <<chainCtr, mempool, nctx, cache, ep, groups, accSet, refSet, log, calls, lastInj, hist, fam>>
+MaxGroups == fam.groups
+Batches == fam.batches
+Acts == fam.acts
+MaxBuilt == fam.built
+MaxCalls == fam.calls
+MaxCtx == fam.ctx
+Chain0 == fam.chain0
+MempoolKey == fam.key
 
 RECURSIVE SumLen(_)
 SumLen(s) == IF s = <<>> THEN 0 ELSE LET r == SumLen(Tail(s)) IN Len(Head(s)) + r
@@ -63,7 +73,8 @@ Visible == IF SeesMempool THEN Pending ELSE 0
 Seq1(base, k) == [j \in 1..k |-> base + j]
 EmptyEp == [burnt |-> 0, fills |-> {}, chain0 |-> None]
 
-Init == /\ chainCtr = Chain0 /\ mempool = <<>> /\ nctx = 0
+Init == /\ fam \in Families
+        /\ chainCtr = Chain0 /\ mempool = <<>> /\ nctx = 0
         /\ cache = [c \in 1..MaxCtx |-> None] /\ ep = [c \in 1..MaxCtx |-> EmptyEp]
         /\ groups = <<>> /\ accSet = {} /\ refSet = {} /\ log = <<>>
         /\ calls = 0 /\ lastInj = 0 /\ hist = <<>>
@@ -168,11 +179,11 @@ Bake == /\ mempool # <<>> /\ chainCtr' = chainCtr + Pending /\ mempool' = <<>>
 \* One step of a history.  Building a group touches nothing but the new object (and possibly a new
 \* context), so it commutes with every other call: histories are enumerated with all builds first and in
 \* canonical order (by context, then size) - a sound reduction, not a restriction.  `calls` counts the other calls.
-Step(e) == calls < MaxCalls /\ calls' = calls + 1 /\ hist' = Append(hist, e)
+Step(e) == calls < MaxCalls /\ calls' = calls + 1 /\ hist' = Append(hist, e) /\ UNCHANGED fam
 BuildOrder(k, c) == IF groups = <<>> THEN TRUE ELSE LET l == groups[Len(groups)] IN l.cx < c \/ (l.cx = c /\ l.n <= k)
 ABuild == \E k \in Batches, c \in 1..MaxCtx :
             /\ calls = 0 /\ Len(groups) < MaxBuilt /\ BuildOrder(k, c) /\ Build(k, c)
-            /\ hist' = Append(hist, <<"build", k, c>>) /\ UNCHANGED calls
+            /\ hist' = Append(hist, <<"build", k, c>>) /\ UNCHANGED <<calls, fam>>
 AFill == "fill" \in Acts /\ \E g \in DOMAIN groups : Fill(g) /\ Step(<<"fill", g>>)
 AAutofill == "autofill" \in Acts /\ \E g \in DOMAIN groups : Autofill(g, TRUE) /\ Step(<<"autofill", g, TRUE>>)
 AAutofillFail == "autofail" \in Acts /\ \E g \in DOMAIN groups : Autofill(g, FALSE) /\ Step(<<"autofill", g, FALSE>>)
